@@ -11,7 +11,7 @@ namespace Lemmas.C10
 open Verbs Lemmas.C11
 
 /-- Grouping key of a record: the selected values joined with commas; none if a field is missing. -/
-def gkey (fields : List Bytes) (r : Rec) : Option Bytes := (fields.mapM (get r)).map (Split.join [44])
+def gkey (fields : List Bytes) (r : Rec) : Option Bytes := (fields.mapM (get r)).map (joinKey)
 
 def firstVals (fields : List Bytes) : List Rec → List Bytes
   | [] => []
@@ -78,10 +78,10 @@ theorem sim_step {α} (fields : List Bytes) (init : α) (upd : α → Rec → α
   | none =>
     rw [stepState_none fields m r (by simp [gkey, hv])]
   | some vs =>
-    rw [stepState_some fields m r (Split.join [44] vs) (by simp [gkey, hv])]
+    rw [stepState_some fields m r (joinKey vs) (by simp [gkey, hv])]
     simp only
     rw [abs_get]
-    cases hg : m.get? (Split.join [44] vs) with
+    cases hg : m.get? (joinKey vs) with
     | none =>
       simp only [Option.map_none, Option.getD_none, List.nil_append]
       rw [abs_put]
